@@ -521,7 +521,9 @@ class Function(Value):
 
         for bb in self.BasicBlocks:
             bb.UpdateUses()
-            self.__uses.update(bb.Uses)
+            # A value can be used in several blocks: merge the user lists
+            for ref, users in bb.Uses.items():
+                self.__uses[ref].extend(users)
 
     @property
     def BasicBlocks(self):
